@@ -40,7 +40,7 @@ def bucket_allocator(F, R):
     def canon(t):
         # express everything over the bucket layout: self.bucket_size is whatever new_uninit stored
         s_ = sym_nstr(t) if isinstance(t, tuple) else t
-        return s_.replace('Layout::size(bucket_layout)', 'SIZE').replace('Layout::align(bucket_layout)', 'ALIGN')
+        return re.sub(r'Layout::align\(\w+\)', 'ALIGN', re.sub(r'Layout::size\(\w+\)', 'SIZE', s_))
     terms = {}
     nu = F.fn(PA + '::new_uninit')
     for a in agg_sites(nu, r'pool_allocator::PoolAllocator$'):
@@ -55,11 +55,13 @@ def bucket_allocator(F, R):
     divs = [s for s in gi.sites if s.i != 'T' and s.node[0] == 'a' and s.node[2][0] == 'bin' and s.node[2][1] == 'Div']
     if len(divs) == 1:
         terms['divisor in get_index'] = (sym_norm(sym(gi, divs[0].node[2][3])), divs[0])
-    muls = [s for s in al.sites if s.i != 'T' and s.node[0] == 'a' and s.node[2][0] == 'bin' and s.node[2][1] == 'Mul']
+    # index * stride, in allocate itself or in a private helper it delegates the address computation to
+    muls = [s for g_ in lib.family(F, al) for s in g_.sites if s.i != 'T' and s.node[0] == 'a' and s.node[2][0] == 'bin' and s.node[2][1] == 'Mul']
     if len(muls) == 1:
         m = muls[0]
-        a_, b_ = sym_norm(sym(al, m.node[2][2])), sym_norm(sym(al, m.node[2][3]))
-        t = b_ if 'acquire_raw_index' in sym_nstr(a_) else a_
+        a_, b_ = sym_norm(sym(m.fn, m.node[2][2])), sym_norm(sym(m.fn, m.node[2][3]))
+        is_index = lambda op, t_: 'acquire_raw_index' in sym_nstr(t_) or (m.fn is not al and op[0] in ('c', 'm') and m.fn.prov_operand(op).root[0] == 'arg' and m.fn.prov_operand(op).root[1] >= 2)
+        t = b_ if is_index(m.node[2][2], a_) else a_
         terms['multiplier in allocate'] = (t, m)
     R.floor('stride expressions found', len(terms), 4)
 
